@@ -7,7 +7,7 @@
 // (SymShiftInvert and the composite operators of the generalized solvers are in c11_shiftinv.cpp.)
 // Inputs: ALL symmetric 3x3 matrices over {-1,0,1} (shifted / made positive definite as the wrapper requires), ALL
 // general 3x3 matrices over {-1,0,1} (every 9th in the quick tier), structured matrices of every size 1..6; shifts
-// {0.37, -1.2345}; the matrix handed over as a plain object, a block of a larger matrix, a Map and an expression.
+// {0.37, -1.2345, 1e-9 (tiny non-zero diagonal of A - sigma I for matrices with zero diagonal entries: pivoting matters)}; the matrix handed over as a plain object, a block of a larger matrix, a Map and an expression.
 // Oracle: the matrix of the operator (applied to every e_i) against a long double dense reference built from the
 // FULL symmetric matrix; backward error for solves; metamorphic triangle test: the triangle the wrapper must not read
 // is overwritten with unrelated numbers and every output must stay bit-identical.
@@ -190,7 +190,7 @@ static void t_dense_symshift(const Case& c, Local& L)
     const int n = c.A.rows();
     Ctx X{L, c, std::string("DenseSymShiftSolve<") + TN<S>::n() + "," + (Uplo == Eigen::Lower ? "Lower" : "Upper") + "," + (Flags == Eigen::RowMajor ? "RowMajor" : "ColMajor") + ">"};
     Mat Mfull = dense_tri<S, Flags>(c.A, Uplo, false), Mpois = dense_tri<S, Flags>(c.A, Uplo, true);
-    for (LD sg : {LD(0.37L), LD(-1.2345L)})
+    for (LD sg : {LD(0.37L), LD(-1.2345L), LD(1e-9L)})
     {
         MatCL Ms = c.A - CL(LD(S(sg))) * MatCL::Identity(n, n);
         Eigen::FullPivLU<MatCL> lu(Ms);
@@ -207,7 +207,8 @@ static void t_dense_symshift(const Case& c, Local& L)
         auto R1 = op_matrix<S>(n, [&](const S* x, S* y) { opp.perform_op(x, y); });
         if (!bits_equal(R0, R1)) X.v("triangle", "output changed when only the unused triangle was overwritten");
         // a second shift on the same object, then back: the object must follow the latest shift
-        op.set_shift(S(sg + 1));
+        try { op.set_shift(S(sg + 1)); }
+        catch (const std::invalid_argument&) { L.count("reshift_intermediate_singular"); }  // A - (s+1) I may be exactly singular: a legitimate rejection
         op.set_shift(S(sg));
         auto R2 = op_matrix<S>(n, [&](const S* x, S* y) { op.perform_op(x, y); });
         if (!bits_equal(R0, R2)) X.v("reshift", "set_shift(s); set_shift(s+1); set_shift(s) differs from set_shift(s)");
@@ -231,7 +232,7 @@ static void t_dense_gen(const Case& c, Local& L)
         DenseGenMatProd<S, Flags> ope(M + M - M);
         cmp_product<S>(X, op_matrix<S>(n, [&](const S* x, S* y) { ope.perform_op(x, y); }), c.A, "expression");
     }
-    for (LD sg : {LD(0.37L), LD(-1.2345L)})
+    for (LD sg : {LD(0.37L), LD(-1.2345L), LD(1e-9L)})
     {
         MatCL Ms = c.A - CL(LD(S(sg))) * MatCL::Identity(n, n);
         Eigen::FullPivLU<MatCL> lu(Ms);
@@ -292,7 +293,7 @@ static void t_sparse_symshift(const Case& c, Local& L)
     const int n = c.A.rows();
     Ctx X{L, c, std::string("SparseSymShiftSolve<") + TN<S>::n() + "," + (Uplo == Eigen::Lower ? "Lower" : "Upper") + "," + (Flags == Eigen::RowMajor ? "RowMajor" : "ColMajor") + "," + TN<Idx>::n() + ">"};
     auto M1 = sparse_tri<S, Flags, Idx>(c.A, Uplo, 1), M2 = sparse_tri<S, Flags, Idx>(c.A, Uplo, 2);
-    for (LD sg : {LD(0.37L), LD(-1.2345L)})
+    for (LD sg : {LD(0.37L), LD(-1.2345L), LD(1e-9L)})
     {
         MatCL Ms = c.A - CL(LD(S(sg))) * MatCL::Identity(n, n);
         Eigen::FullPivLU<MatCL> lu(Ms);
@@ -321,7 +322,7 @@ static void t_sparse_gen(const Case& c, Local& L)
         SparseGenMatProd<S, Flags, Idx> op(M);
         cmp_product<S>(X, op_matrix<S>(n, [&](const S* x, S* y) { op.perform_op(x, y); }), c.A, "plain");
     }
-    for (LD sg : {LD(0.37L), LD(-1.2345L)})
+    for (LD sg : {LD(0.37L), LD(-1.2345L), LD(1e-9L)})
     {
         MatCL Ms = c.A - CL(LD(S(sg))) * MatCL::Identity(n, n);
         Eigen::FullPivLU<MatCL> lu(Ms);
